@@ -33,4 +33,6 @@ def check(ctx, rep):
     _pos1.pos_1(ctx, rep)       # an offset is never recovered by searching for the text
     from ..rules import tok as _tok13
     _tok13.tok_13(ctx, rep)     # the indentation of a logical line is decided once
+    from ..rules import rxr as _rx14
+    _rx14.rx_14(ctx, rep)       # no exponentially ambiguous pattern: the matcher terminates in practice on every text
     rep.note('Not decided: true positions.')
